@@ -21,6 +21,10 @@ fn main() {
             "C07" => vh::c07::check("C07"),
             "C08" => vh::c07::check("C08"),
             "C09" => vh::c09::check(),
+            "C12" => vh::c12::check_c12(),
+            "C13" => vh::c12::check_c13(),
+            "C14" => vh::c12::check_c14(),
+            "C15" => vh::c15::check(),
             "C16" => vh::c16::check(),
             "C10" => vh::c10::check(),
             _ => usage(),
@@ -35,6 +39,8 @@ fn main() {
                 "c06s" => vh::c06::child_s(idx),
                 "c05s" => vh::c05::child_s(idx),
                 "c16s" => vh::c16::child_s(idx),
+                "c15" => vh::c15::child(idx),
+                "hashdigest" | "iddigest" => vh::c12::child(args[2].as_str()),
                 _ => usage(),
             }
             0
@@ -52,6 +58,8 @@ fn main() {
                 "c07" => vh::c07::replay(r),
                 "c05" | "c05s" => vh::c05::replay(r),
                 "c16h" | "c16s" => vh::c16::replay(r),
+                "c15" | "c15enc" => vh::c15::replay(r),
+                "c12" | "c13" | "c14" => vh::c12::replay(r),
                 "c06h" | "c06s" => vh::c06::replay(r),
                 _ => usage(),
             }
